@@ -259,6 +259,7 @@ func (p *BaseProcess) receiveOnInPorts() (ips map[string]*FileIP, inPortsOpen bo
 	// Read input IPs on in-ports and set up path mappings
 	for inpName, inPort := range p.InPorts() {
 		Debug.Printf("[Process %s]: Receieving on inPort (%s) ...", p.name, inpName)
+		verifPoint("inport.recv", p.name, 0)
 		ip, open := <-inPort.Chan
 		if !open {
 			inPortsOpen = false
@@ -275,6 +276,7 @@ func (p *BaseProcess) receiveOnInParamPorts() (params map[string]string, paramPo
 	params = make(map[string]string)
 	// Read input IPs on in-ports and set up path mappings
 	for pname, pport := range p.InParamPorts() {
+		verifPoint("inport.recv", p.name, 1)
 		pval, open := <-pport.Chan
 		if !open {
 			paramPortsOpen = false
